@@ -150,6 +150,18 @@ Fixpoint h_run_ops (cfg : config) (fuel : nat) (st : state) (ops : list op) : li
 Definition h_init (cfg : config) : state :=
   if c_abm cfg then fst (h_schedule_relative cfg fresh SCALE gen_step_prio (-1) (-1) true []) else fresh.
 
+Definition h_step_op_unset (cfg : config) (fuel : nat) (st : state) (o : op) : state * list Z :=
+  if is_run o then (st, [-1; E_NOSETUP]) else h_step_op cfg fuel st o.
+Fixpoint h_run_ops_unset (cfg : config) (fuel : nat) (st : state) (ops : list op) : list (list Z * list Z) :=
+  match ops with
+  | [] => []
+  | o :: r => let '(st1, ob) := h_step_op_unset cfg fuel st o in (ob, h_array st1) :: h_run_ops_unset cfg fuel st1 r
+  end.
+
+Definition h_run_case (c : case) : list (list Z * list Z) :=
+  if c_setup c then h_run_ops (c_cfg c) (c_fuel c) (h_init (c_cfg c)) (c_ops c)
+  else h_run_ops_unset (c_cfg c) (c_fuel c) fresh (c_ops c).
+
 (* what the optional tie compares: observation, separator -7, array *)
 Definition run_case_heap (c : case) : list (list Z) :=
-  map (fun oa => fst oa ++ (-7) :: snd oa) (h_run_ops (c_cfg c) (c_fuel c) (h_init (c_cfg c)) (c_ops c)).
+  map (fun oa => fst oa ++ (-7) :: snd oa) (h_run_case c).
